@@ -65,13 +65,15 @@ def judge_oracle(ctx, path, name, known):
                       True, "generic %s and concrete %s differ on %s of %s (%s)" % (
                           d["case"]["g"], d["case"]["c"], d["where"], d["case"]["type"], d["site"]))
     for fid, d in sorted(hit.items()):
-        ctx.known_finding(known[fid]["id"], known[fid]["what"][:260])
+        if known[fid]["id"] not in [f for f, _ in ctx.known_hit]:
+            ctx.known_finding(known[fid]["id"], known[fid]["what"][:260])
     ctx.oblige(1, 1 if unknown == 0 else 0)
     return o
 
 
 def corr(ctx, binary, n):
-    rc, out = vlib.run_harness(ctx, binary, n, args=("--repo", vlib.REPO))
+    rc, out = vlib.run_harness(ctx, binary, n, extra=os.path.join(vlib.ROOT, "corpus/C09/witnesses.jsonl"),
+                               args=("--repo", vlib.REPO))
     if rc != 0:
         ctx.violation({"obligation": "C09 harness run", "log": out[-3000:]}, False,
                       "harness failed on the implementation")
@@ -136,10 +138,27 @@ def run(ctx):
             "pairs_never_evaluated_without_panic": sorted(k for k, v in (o.get("per_pair") or {}).items()
                                                           if not (o.get("per_pair_nonpanic") or {}).get(k)),
             "known_difference_instances": o.get("diff_count"),
+            "corpus_witnesses": o.get("corpus_witnesses"),
+            "corpus_witnesses_that_agree_now (a listed finding may have been fixed)": o.get("corpus_witnesses_that_agree_now"),
         }
+        # the pair table derived from the source, against the committed one: added / removed pairs show here
+        ep = os.path.join(vlib.ROOT, "corpus/C09/pairs.json")
+        now = sorted("%s/%s:%s" % (p["g"], p["c"], t) for p in o.get("source_pairs") or [] for t in p["types"])
+        if os.path.exists(ep):
+            old = json.load(open(ep))
+            added = sorted(set(now) - set(old))
+            removed = sorted(set(old) - set(now))
+            ctx.cov["extra"]["pairs"]["pair_table_delta_vs_committed"] = {"added": added, "removed": removed}
+            if added or removed:
+                ctx.notes.append("pair table changed: +%d -%d (see coverage.extra.pairs.pair_table_delta_vs_committed); "
+                                 "added pairs are evaluated on the implementation when their operands can be "
+                                 "constructed, they are not in the Coq models" % (len(added), len(removed)))
+                ctx.log("pair table changed: added %s removed %s" % (added[:6], removed[:6]))
     broke = bad or not ok
-    if broke or ctx.tier == "thorough":
-        cap = 600 if ctx.tier == "quick" else 4000
+    if True:
+        # exhaustive small operands per pair (zero patterns, Orders 0..2, N <= 2, alias patterns): always run with a
+        # cap, with a larger one once a proof or the correspondence broke
+        cap = (250 if not broke else 1500) if ctx.tier == "quick" else 4000
         hp = hunt(ctx, binary, cap)
         before = len(ctx.violations)
         h = judge_oracle(ctx, hp, "hunt (exhaustive small operands)", known)
@@ -152,8 +171,9 @@ def run(ctx):
                               "proof obligation no longer checks: %s %s" % (f["target"], f["lemma"] or ""))
             if bad:
                 ctx.violation({"model_case": bad[0], "obligation": "correspondence C09.Corr.check (models vs implementation)"},
-                              False, "a model (generic or concrete member) and the implementation disagree, but generic "
-                                     "and concrete still agree on the implementation for every input tried")
+                              False, "a model (generic or concrete member) and the implementation disagree; on the "
+                                     "implementation no difference between generic and concrete beyond the listed "
+                                     "findings was found")
 
 
 def replay(ctx, path):
